@@ -1233,6 +1233,9 @@ def run_check(ck, which: str) -> None:  # noqa: C901, PLR0912, PLR0915
                                           "VReplaceAllUses", "VSetName", "IOAppend", "IOExtend", "IOInsert", "IOPop", "IORemove",
                                           "IOClear", "IOSetItem", "IODelItem", "IOIMul", "IOReverse", "InitSetItem", "InitDelItem",
                                           "InitPop", "InitAdd", "InitClear", "Function forwards (routed through Function objects)"})
+    ck.coverage["multi_graph_stream"] = ("nested graphs (2-8 permuted If-like bodies, one cyclic scope) + Graph.sort on top/nested "
+                                         "graphs; rename_values / replace_all_uses_with spanning >= 2 graphs with the invalid "
+                                         "element in a later graph")
     ck.coverage["ops_oracle_only"] = ["IOSetSlice", "IODelSlice", "IOSort", "InitPopItem", "InitUpdate", "InitSetDefault", "InitIOr",
                                       "GSort", "GRegisterInitializer", "ConvReplaceAllUses", "ConvRenameValues",
                                       "ConvReplaceNodesAndValues"]
@@ -1346,6 +1349,22 @@ def run_check(ck, which: str) -> None:  # noqa: C901, PLR0912, PLR0915
             ck.hist("ops", s["op"][0])
         if st and st[-1][which]:
             report([s["op"] for s in st], len(st) - 1, st[-1], st[-1])
+    # ---- 4b. rejected edits spanning several graphs: nested sort with one cyclic scope, multi-graph convenience calls
+    n_mg = 120 if not ck.thorough else 1500
+    for i in range(n_mg):
+        gen = (gen_nested_sort, gen_nested_sort, gen_multi_rename, gen_multi_rename, gen_multi_rau)[i % 5]
+        ops = gen(rng)
+        st = run_history(ops)["steps"]
+        ck.count(len(st))
+        if len(st) == len(ops):
+            last = st[-1]
+            ck.hist("multi_graph_edits", last["op"][0] + ":" + last["outcome"])
+            if last["outcome"] != "ok" and which == "c06":
+                ck.nontriv((last["op"], len(ops), i))
+        for j, s in enumerate(st):
+            if s[which]:
+                report(ops, j, s, s)
+                break
     # ---- 5. known findings are replayed on every run
     for kf in ck._known:  # noqa: SLF001
         if kf.get("status") != "known":
@@ -1379,3 +1398,163 @@ def replay_file(rp: dict, which: str) -> int:
     bad = [(i, s["op"], s["outcome"], s[which]) for i, s in enumerate(st) if s[which]]
     print(json.dumps({"ops": ops, "failures": bad[:5]}, indent=1, default=str))
     return 1 if bad else 0
+
+
+# --------------------------------------------------------------------------- rejected edits that span several graphs (oracle-only)
+
+class _B:
+    """op-list builder keeping the allocation counters the executor expects."""
+
+    def __init__(self):
+        self.ops, self.nv, self.nn, self.ng = [], 0, 0, 0
+
+    def value(self, name):
+        self.ops.append(["NewValue", self.nv, name])
+        self.nv += 1
+        return self.nv - 1
+
+    def node(self, inputs, fresh=1, given=None, sub=None):
+        extra = {} if sub is None else {"sub": sub}
+        if given is not None:
+            self.ops.append(["NewNode", self.nn, inputs, ["OGiven", given, None], None, None, extra])
+            outs = given
+        else:
+            outs = list(range(self.nv, self.nv + fresh))
+            self.ops.append(["NewNode", self.nn, inputs, ["OFresh", outs], None, None, extra])
+            self.nv += fresh
+        self.nn += 1
+        return self.nn - 1, outs
+
+    def graph(self, gi, go, ginit, ns):
+        self.ops.append(["GraphNew", self.ng, gi, go, ginit, ns, {}])
+        self.ng += 1
+        return self.ng - 1
+
+
+def gen_nested_sort(rng) -> list[list]:
+    """A nest of graphs: a top graph with 2-8 If-like nodes whose bodies are acyclic but randomly permuted (one body
+    may hold a further nested body); exactly one scope contains a use-def cycle (or none: 1 in 6); Graph.sort() is
+    called on the top graph or on a nested graph."""
+    b = _B()
+    x, cond = b.value("u0"), b.value("u1")
+    k = rng.randrange(2, 9)
+    deep = rng.randrange(k) if rng.random() < 0.5 else None       # this body holds a nested body
+    scopes = ["top"] + [f"b{i}" for i in range(k)] + (["deep"] if deep is not None else [])
+    cyc = rng.choice(scopes) if rng.random() < 5 / 6 else None
+
+    def body(tag, extra_nodes):
+        nodes, prev = list(extra_nodes), x
+        for _ in range(rng.randrange(2, 5)):
+            n, (o,) = b.node([prev, rng.choice([None, x])][: rng.choice([1, 2])])
+            nodes.append(n)
+            prev = o
+        if cyc == tag:
+            va, vb = b.value(None), b.value(None)
+            na, _ = b.node([vb], given=[va])
+            nb, _ = b.node([va], given=[vb])
+            nodes += [na, nb]
+        perm = nodes[:]
+        for _ in range(5):
+            rng.shuffle(perm)
+            if perm != nodes:
+                break
+        return perm, prev
+
+    gids = {}
+    if_nodes = []
+    for i in range(k):
+        extra = []
+        if deep == i:
+            perm, out = body("deep", [])
+            gids["deep"] = b.graph([], [out], [], perm)
+            n, _ = b.node([cond], fresh=0, sub=gids["deep"])
+            extra = [n]
+        perm, out = body(f"b{i}", extra)
+        gids[f"b{i}"] = b.graph([], [out], [], perm)
+        n, _ = b.node([cond], fresh=1, sub=gids[f"b{i}"])
+        if_nodes.append(n)
+    perm, out = body("top", if_nodes)
+    gids["top"] = b.graph([x, cond], [out], [], perm)
+    r = rng.random()
+    if r < 0.55 or cyc is None:
+        target = "top"
+    elif r < 0.8:
+        target = cyc
+    elif r < 0.9 and cyc == "deep":
+        target = f"b{deep}"
+    else:
+        target = rng.choice(scopes)
+    b.ops.append(["X_GSort", gids[target]])
+    return b.ops
+
+
+def gen_multi_rename(rng) -> list[list]:
+    """rename_values over the initializers of 2-4 graphs (a top graph and If-like bodies); with probability 3/4 the
+    request is invalid, the offending pair sitting in a LATER graph of the rename set (every position)."""
+    b = _B()
+    m = rng.randrange(2, 5)
+    cond = b.value("u1")
+    inits: list[list[int]] = []
+    names: dict[int, str] = {}
+    for j in range(m):
+        vs = []
+        for i in range(rng.randrange(2, 4)):
+            v = b.value(f"u{10 * (j + 1) + i}")
+            names[v] = f"u{10 * (j + 1) + i}"
+            vs.append(v)
+        inits.append(vs)
+    bodies = []
+    for j in range(m - 1):
+        n, (o,) = b.node([inits[j][0], inits[j][1]])
+        bodies.append(b.graph([], [o], inits[j], [n]))
+    ifs = [b.node([cond], fresh=1, sub=g)[0] for g in bodies]
+    n, (o,) = b.node([inits[m - 1][0]])
+    b.graph([cond], [o], inits[m - 1], [n, *ifs])
+    order = list(range(m))
+    rng.shuffle(order)
+    pairs: list[tuple[int, str]] = []
+    first_of_later = None
+    fresh = 100
+    for pos, j in enumerate(order):
+        chosen = rng.sample(inits[j], rng.randrange(1, len(inits[j])))
+        if pos == 1:
+            first_of_later = len(pairs)
+        for v in chosen:
+            pairs.append((v, f"u{fresh}"))
+            fresh += 1
+    if rng.random() < 0.2 and len(pairs) >= 2:        # a valid cross-graph swap of targets inside one graph
+        pass
+    if rng.random() < 0.75:
+        at = rng.randrange(first_of_later, len(pairs))
+        v = pairs[at][0]
+        j = next(j for j in range(m) if v in inits[j])
+        untouched = [w for w in inits[j] if w not in [p[0] for p in pairs]]
+        kind = rng.choice(["collide", "empty", "same-target"])
+        if kind == "collide" and untouched:
+            pairs[at] = (v, names[untouched[0]])
+        elif kind == "same-target" and any(p[0] in inits[j] and p[0] != v for p in pairs):
+            other = next(p for p in pairs if p[0] in inits[j] and p[0] != v)
+            pairs[at] = (v, other[1])
+        else:
+            pairs[at] = (v, "")
+    b.ops.append(["X_ConvRenameValues", [p[0] for p in pairs], [p[1] for p in pairs]])
+    return b.ops
+
+
+def gen_multi_rau(rng) -> list[list]:
+    """replace_all_uses_with(values, replacements, replace_graph_outputs=True) over outputs of two graphs, the
+    replacement of the LATER pair being owned by a third graph (rejected after the earlier pair was replaced)."""
+    b = _B()
+    x = b.value("u0")
+    outs = []
+    for _ in range(2):
+        n, (o,) = b.node([x])
+        n2, _ = b.node([o])
+        b.graph([], [o], [], [n, n2])
+        outs.append(o)
+    ok = b.value("u2")
+    foreign = b.value("u3")
+    b.graph([foreign], [], [], [])
+    reps = [ok, foreign] if rng.random() < 0.7 else [ok, b.value(None)]
+    b.ops.append(["X_ConvReplaceAllUses", outs, reps, True])
+    return b.ops
